@@ -460,13 +460,13 @@ class C15(MasterProp):
         # family `objects` (generated after the others so that their scripts do not depend on it): fragments that are
         # delivered to the ReadHandler carry objects from the WHOLE object library (mcommon.WideObjs: every static and
         # event variation, packed bits, octet strings, common time of occurrence, absolute time, headers no handler is
-        # called for, dead-bands and g102); the tokens are the generator's own reading of the octets, the composed
+        # called for, dead-bands, g102, command events g13); the tokens are the generator's own reading of the octets, the composed
         # model `mfull` (second pass) must compute the same ones
         for i in range(90 if tier == "quick" else 1500):
             s = Script("c15_o%d" % i, {"timeout": TIMEOUT})
             kinds, unmodelled = self.objects_family(s, rng)
             s.sleep(rng.choice([5, TIMEOUT + 20]))
-            out.append(s.case("objects", {"object_kinds": kinds, "outside_conversion_model": unmodelled}))
+            out.append(s.case("objects", {"object_kinds": kinds, "outside_composed_model": unmodelled}))
         return out
 
     def objects_family(self, s, rng):
